@@ -110,7 +110,11 @@ type Config struct {
 	AllVisible bool
 	// EnvChoices enables vsched.Choose / vmap permutations as explored choice points.
 	EnvChoices bool
-	Watchdog   time.Duration
+	// YieldAfterRelease makes every release operation on a shared object a scheduling point
+	// as well (race-detector mode: what matters there is which plain memory accesses fall
+	// between a thread's release and the other thread's acquire).
+	YieldAfterRelease bool
+	Watchdog          time.Duration
 }
 
 type Result struct {
